@@ -11,7 +11,7 @@ FEATURES = ""
 
 FUNCTIONS = [
     dict(name="number_literal_is_power_of_two", rel=O,
-         tail_from=dict(match=r"^while\s+digits\s*\.\s*len\s*\(\s*\)",
+         tail_from=dict(match=r"^while\b",
                         header="""#[verifier::loop_isolation(false)]
 fn number_literal_is_power_of_two__tail(mut digits: Vec<u8>) -> (r: bool)
     requires digits@.len() >= 1, digits@[0] != 0, digits_ok(digits@)
